@@ -158,8 +158,31 @@ package wal
 //@   modifies w.enti
 
 //@ extern github.com/youzan/ZanRedisDB/pkg/pbutil.MustMarshal func(m Marshaler) []byte
+// ---- writer side of the frame format: [8 byte length field][record bytes][0..7 pad bytes], always 8-byte aligned,
+// the record's CRC is the running CRC after its data (ghost(written, nil): bytes handed to the buffered writer)
+//@ extern (*github.com/youzan/ZanRedisDB/pkg/ioutil.PageWriter).Write func(bw *ioutil.PageWriter, p []byte) (int, error)
+//@   ensures result1 == nil ==> result0 == len(p) && ghost(written, nil) == old(ghost(written, nil)) + len(p)
+//@   ensures result1 != nil ==> ghost(written, nil) >= old(ghost(written, nil))
+//@   modifies ghost(written, nil)
+//@ extern (*github.com/youzan/ZanRedisDB/wal/walpb.Record).Size func(m *Record) int
+//@   ensures result >= 0 && result < 72057594037927936 && result == ghost(pbsize, m)
+//@ extern (*github.com/youzan/ZanRedisDB/wal/walpb.Record).Marshal func(m *Record) ([]byte, error)
+//@   ensures result1 == nil ==> len(result0) == ghost(pbsize, m) && fresh(result0)
+//@ extern (*github.com/youzan/ZanRedisDB/wal/walpb.Record).MarshalTo func(m *Record, dAtA []byte) (int, error)
+//@   requires len(dAtA) >= ghost(pbsize, m)
+//@   ensures result1 == nil ==> result0 == ghost(pbsize, m)
+//@   modifies dAtA[0:len(dAtA)]
+//@ func writeUint64(w io.Writer, n uint64, buf []byte) error
+//@   trusted 8 little-endian bytes through io.Writer
+//@   requires len(buf) >= 8
+//@   ensures result == nil ==> ghost(written, nil) == old(ghost(written, nil)) + 8 && ghost(lastlen, nil) == n
+//@   ensures result != nil ==> ghost(written, nil) >= old(ghost(written, nil))
+//@   modifies ghost(written, nil), ghost(lastlen, nil), buf[0:8]
 //@ func (e *encoder) encode(rec *walpb.Record) error
-//@   trusted buffered write of one framed record (CRC chained)
+//@   requires e != nil && rec != nil && e.bw != nil && e.crc != nil && len(e.uint64buf) >= 8
+//@   ensures result == nil ==> (ghost(written, nil) - old(ghost(written, nil))) % 8 == 0 && ghost(written, nil) - old(ghost(written, nil)) >= 8 + ghost(pbsize, rec) && ghost(written, nil) - old(ghost(written, nil)) < 16 + ghost(pbsize, rec)
+//@   ensures int(rec.Crc) == ghost(crcsum, e.crc)
+//@   modifies *
 
 //@ func (w *WAL) saveState(s *raftpb.HardState) error
 //@   requires w != nil && s != nil
